@@ -57,8 +57,13 @@ def run(prog: Program, col: Collector, tier: str, refs: Optional[Refs] = None, c
     algebra.r_nested_fusion_same_red_op(prog, col, refs, cat, "R02.21")
     algebra.r_contraction_result_reduces(prog, col, refs, cat, "R02.22")
     algebra.r_binary_rule_operand_order(prog, col, refs, cat, "R02.23")
+    algebra.r_receiver_narrowed_reduce(prog, col, refs, cat, "R02.27")
     from . import kernels
     kernels.r_aligned_or_same_layout(prog, col, refs, cat, "R02.24")
     kernels.r_unit_axis_padding(prog, col, refs, cat, "R02.25")
     kernels.r_index_padding_count(prog, col, refs, cat, "R02.26")
+    from . import algebra as _algebra
+    _algebra.r_split_reduced_vars_accounted(prog, col, refs, cat, "R02.28")
+    from . import algebra as _algebra2
+    _algebra2.r_guarded_reduce_has_alternative(prog, col, refs, cat, "R02.29")
     return col
